@@ -543,7 +543,7 @@ POOL = {
     "shuffle_disk": (_q_shuffle, {"method": "disk"}, [("on", "a"), ("npartitions", 2)], {"sort_rows": True, "tags": ["disk"]}),
     "repart_n": (_q_repart_n, {}, [("npartitions", 3), ("nparts", 5)], {}),
     "repart_div": (_q_repart_div, {}, [("divisions", (0, 20, 39)), ("nparts", 3)], {}),
-    "repart_size": (_q_repart_size, {}, [("size", "300B"), ("col", "a"), ("col", "b"), ("col", "c"), ("col", "s")] + [("nparts", k) for k in (2, 3, 5, 6, 7, 8, 9, 10)],
+    "repart_size": (_q_repart_size, {}, [("size", "300B"), ("size", "120B"), ("col", "a"), ("col", "b"), ("col", "c"), ("col", "s")] + [("nparts", k) for k in (2, 3, 5, 6, 7, 8, 9, 10)],
                     {"tags": ["memusage"]}),
     "concat": (_q_concat, {}, [("nparts", 3), ("other_parts", 1)], {}),
     "concat1": (_q_concat1, {}, [("nparts", 2)], {}),
